@@ -1037,6 +1037,23 @@ def _mk(op, a, b, f):
         op, a, b = 'lt', b, a
     elif op == 'ge':
         op, a, b = 'le', b, a
+    # a difference compared with zero is the comparison of its operands: `round(x - y, p) <= 0` is `x <= y` (within p)
+    if op in ('lt', 'le', 'eq', 'ne'):
+        def diff(e):
+            e = strip_refs(e)
+            if isinstance(e, ast.Call) and isinstance(e.func, ast.Name) and e.func.id == 'round' and e.args:
+                e = strip_refs(e.args[0])
+            return e if isinstance(e, ast.BinOp) and isinstance(e.op, ast.Sub) else None
+
+        def zero(e):
+            e = strip_refs(e)
+            return isinstance(e, ast.Constant) and not isinstance(e.value, bool) and e.value == 0
+        if zero(b) and diff(a) is not None:
+            d = diff(a)
+            a, b = d.left, d.right
+        elif zero(a) and diff(b) is not None:
+            d = diff(b)
+            a, b = d.right, d.left
     return Cmp(op, a, b, f.exc, f)
 
 
